@@ -164,6 +164,7 @@ func HandleBulkBody(postBody []byte, ctx *fasthttp.RequestCtx, rid uint64, myid 
 		}
 
 		inCount++
+		maxRecordSizeExceeded = false
 		if inCount >= len(items) {
 			newArr := make([]interface{}, 100)
 			items = append(items, newArr...)
@@ -235,6 +236,7 @@ func HandleBulkBody(postBody []byte, ctx *fasthttp.RequestCtx, rid uint64, myid 
 
 		if !success {
 			responsebody := make(map[string]interface{})
+			overallError = true
 			if maxRecordSizeExceeded {
 				error_response := utils.BulkErrorResponse{
 					ErrorResponse: *utils.NewBulkErrorResponseInfo("request entity too large", "request_entity_exception"),
@@ -243,7 +245,6 @@ func HandleBulkBody(postBody []byte, ctx *fasthttp.RequestCtx, rid uint64, myid 
 				responsebody["status"] = 413
 				items[inCount-1] = responsebody
 			} else {
-				overallError = true
 				error_response := utils.BulkErrorResponse{
 					ErrorResponse: *utils.NewBulkErrorResponseInfo("indexing request failed", "mapper_parse_exception"),
 				}
